@@ -371,6 +371,7 @@ def post_checks(prog, conf, tag, idfn='VFN(vf_id)'):
     out = []
     if not conf.started: return out
     for m in conf.active_machines():
+        if m.name in getattr(conf, 'unspec', ()): continue
         for r, name in enumerate(conf.m[m.name]['active']):
             out.append('VF_CHECK(%s(%d, %d) == VFN(vf_sid)(%d), "%s:active-id m%d r%d");' % (idfn, m.idx, r, m.states[name].idx, tag, m.idx, r))
     return out
@@ -397,7 +398,7 @@ def build_trie(prog, paths, proj, leaf_fn):
 
 def dec_cond(dec):
     if not dec: return '1'
-    return ' && '.join('vf_gv[%d] == %d' % (site, v) for site, v in dec)
+    return ' && '.join(('vf_gv[%d] == %d' % (site, v)) if site < 1000 else ('(vf_throw_site0 == %d) == %d' % (site - 1000, v)) for site, v in dec)
 
 
 def emit_trie(node, depth, ind, tag, out):
@@ -437,10 +438,13 @@ def result_checks(res, tag):
 
 
 def step_call(prog, st, decs=None, pay='0'):
-    g = 0
+    g = 0; ts = -1
     for site, v in (decs or {}).items():
-        if v: g |= 1 << site
+        if site >= 1000:
+            if v: ts = site - 1000
+        elif v: g |= 1 << site
     pre = 'vf_set_guards(0x%xu); ' % g if decs is not None else ''
+    if decs is not None and any(k >= 1000 for k in decs): pre += 'vf_throw_site = %d; ' % ts
     if st[0] == 'start': return pre + 'VFN(vf_start)();'
     if st[0] == 'stop': return pre + 'VFN(vf_stop)();'
     if st[0] == 'ev':
@@ -471,7 +475,7 @@ def active_completion_sites(prog, conf):
     return fixed_guard_sites(prog, conf)[0]
 
 
-def emit_harness(prog, confs, steps, tag, proj=KINDS_ALL, check_result=True, check_post=True, check_flags=False, probe=None, check_introspect=False, check_queue=False, copy_modes=None, ser_states=None,
+def emit_harness(prog, confs, steps, tag, throws=False, proj=KINDS_ALL, check_result=True, check_post=True, check_flags=False, probe=None, check_introspect=False, check_queue=False, copy_modes=None, ser_states=None,
                  extra_pre=None, extra_leaf=None, nsites=None):
     """confs: list of (conf, script).  steps: symbolic step alphabet (list of step descriptors;
     all 'ev' steps are merged into one nondet kind).  Emits harness_p<i> per configuration."""
@@ -491,7 +495,7 @@ def emit_harness(prog, confs, steps, tag, proj=KINDS_ALL, check_result=True, che
         decs_by_kind = {}
         my_steps = [st for st in steps if (st[0] == 'start') != conf.started and not (st[0] == 'exec1' and not conf.queue)]
         for st in my_steps:
-            paths = explore(prog, conf, lambda sem, st=st: run_step(sem, st), probe=probe)
+            paths = explore(prog, conf, lambda sem, st=st: run_step(sem, st), probe=probe, throws=throws)
             def leaf_fn(dec, log, res, post):
                 l = []
                 if check_result: l += result_checks(res, tag)
@@ -515,14 +519,14 @@ def emit_harness(prog, confs, steps, tag, proj=KINDS_ALL, check_result=True, che
             out.append('static void %s(uint32_t r, int32_t P) {\n%s\n}' % (fn, '\n'.join(body)))
             fns.append((st, fn, len(paths)))
             if st[0] == 'ev':
-                decs_by_kind[prog.events.index(st[1])] = [[[site, v] for site, v in dec.items()] for dec, _, _, _ in paths]
+                decs_by_kind[prog.events.index(st[1])] = [[[site, v] for site, v in dec.items() if site < 1000] for dec, _, _, _ in paths]
         out.append('void harness_p%d(void) {' % ci)
         out.append('  vf_init();')
         out.append('  vf_projmask = %s;' % ' | '.join('VF_M_' + k for k in proj))
         out.append('  vf_in_prefix = 1;')
         for st, dec in script:
             out.append('  ' + step_call(prog, st, dec))
-        out.append('  vf_in_prefix = 0;')
+        out.append('  vf_in_prefix = 0;' + (' vf_throw_site = -1;' if throws else ''))
         for l in post_checks(prog, conf, tag + ':prefix'): out.append('  ' + l)
         if copy_modes:
             out.append('  uint32_t cmode = vf_nondet(5); VF_ASSUME(%s);' % ' || '.join('cmode == %d' % cm_ for cm_ in copy_modes))
@@ -569,6 +573,12 @@ def emit_harness(prog, confs, steps, tag, proj=KINDS_ALL, check_result=True, che
         out.append('  /* all guard sites nondet, except: sites fixed by a case split of the check engine; completion guards of states')
         out.append('     active in the pre-state stay false (C10) and Defer guards stay true while an event is pending (C05) */')
         out.append('  vf_nondet_guards(VF_GFIX_MASK | 0x%xu, (VF_GFIX_VAL & ~0x%xu) | 0x%xu);' % (cm, cm, cv))
+        if throws:
+            out.append('  vf_throw_site = (int32_t)vf_nondet(7); VF_ASSUME(vf_throw_site >= -1 && vf_throw_site < 256);   /* C12: which behaviour position throws (-1: none) */')
+            out.append('#ifdef VF_TSITE')
+            out.append('  vf_throw_site = VF_TSITE; vf_inputs[7] = (uint32_t)vf_throw_site;')
+            out.append('#endif')
+            out.append('  vf_throw_site0 = vf_throw_site;')
         out.append('  vf_nlog = 0; uint32_t r = 0;')
         alt = 0
         if my_ev:
